@@ -412,6 +412,10 @@ func (p *parser) parseSwitchStatement() ast.Statement {
 		}
 		node.Body = append(node.Body, clause)
 	}
+	if node.RightBrace == 0 {
+		// end of input inside the switch body
+		node.RightBrace = p.expect(token.RIGHT_BRACE)
+	}
 
 	if p.mode&StoreComments != 0 {
 		p.comments.CommentMap.AddComments(node, comments, ast.LEADING)
